@@ -1,8 +1,83 @@
-/- Line-protocol driver stub: answers every request line with "unimplemented". -/
+/-
+  Line-protocol driver for property C12 (core Lean only): evaluates the executable model
+  (ChessVerif.Attacks) and the independent geometric spec (ChessVerif.Geometry) on the same inputs.
+
+  One request line → exactly one answer line  `<model values> | <spec values>`  (16-digit hex, space
+  separated).  Requests:
+    king                 kingMoves sq          | kingSet sq               for sq = 0..63
+    knight               knightMoves sq        | knightSet sq             for sq = 0..63
+    ib <a>               inBetween a b (raw)   | strictlyBetween a b      for b = 0..63
+    al <a>               (nothing)             | aligned a b as 0/1       for b = 0..63
+    pc <c> <bb>…         pawnCaptureMoves bb c | pawnCaptureSet bb c      (c = 0 white, 1 black)
+    pp <c> <bb>…         pawnSinglePushMoves   | pawnPushSet
+    b <sq> <occ>…        bishopMoves sq occ    | bishopRay occ sq
+    r <sq> <occ>…        rookMoves sq occ      | rookRay occ sq
+  Anything else → `err`.
+-/
+import ChessVerif.Model.Attacks
+import ChessVerif.Spec.Geometry
+
+open ChessVerif
+
+def hexDigit (c : Char) : Option Nat :=
+  if '0' ≤ c && c ≤ '9' then some (c.toNat - '0'.toNat)
+  else if 'a' ≤ c && c ≤ 'f' then some (c.toNat - 'a'.toNat + 10)
+  else if 'A' ≤ c && c ≤ 'F' then some (c.toNat - 'A'.toNat + 10)
+  else none
+
+def parseHex (s : String) : Option BB :=
+  if s.isEmpty || s.length > 16 then none
+  else (s.toList.foldlM (fun acc c => (hexDigit c).map (fun d => acc * 16 + d)) 0).map (BitVec.ofNat 64)
+
+def parseHexes (ws : List String) : Option (List BB) := ws.mapM parseHex
+
+def render (ms ss : List BB) : String :=
+  " ".intercalate (ms.map hex64) ++ " | " ++ " ".intercalate (ss.map hex64)
+
+def parseColor (s : String) : Option Color :=
+  if s == "0" then some .white else if s == "1" then some .black else none
+
+def parseSq (s : String) : Option Nat :=
+  match s.toNat? with
+  | some n => if n < 64 then some n else none
+  | none => none
+
+def answer (line : String) : String :=
+  let ws := (line.splitOn " ").filter (· ≠ "")
+  let sqs := List.range 64
+  match ws with
+  | ["king"] => render (sqs.map Attacks.kingMoves) (sqs.map Geometry.kingSet)
+  | ["knight"] => render (sqs.map Attacks.knightMoves) (sqs.map Geometry.knightSet)
+  | ["ib", a] =>
+    match parseSq a with
+    | some a => render (sqs.map (Attacks.inBetween a)) (sqs.map (Geometry.strictlyBetween a))
+    | none => "err"
+  | ["al", a] =>
+    match parseSq a with
+    | some a => render [] (sqs.map fun b => if Geometry.aligned a b then 1 else 0)
+    | none => "err"
+  | "pc" :: c :: bbs =>
+    match parseColor c, parseHexes bbs with
+    | some c, some bbs => render (bbs.map (Attacks.pawnCaptureMoves · c)) (bbs.map (Geometry.pawnCaptureSet · c))
+    | _, _ => "err"
+  | "pp" :: c :: bbs =>
+    match parseColor c, parseHexes bbs with
+    | some c, some bbs => render (bbs.map (Attacks.pawnSinglePushMoves · c)) (bbs.map (Geometry.pawnPushSet · c))
+    | _, _ => "err"
+  | "b" :: sq :: occs =>
+    match parseSq sq, parseHexes occs with
+    | some sq, some occs => render (occs.map (Attacks.bishopMoves sq)) (occs.map (Geometry.bishopRay · sq))
+    | _, _ => "err"
+  | "r" :: sq :: occs =>
+    match parseSq sq, parseHexes occs with
+    | some sq, some occs => render (occs.map (Attacks.rookMoves sq)) (occs.map (Geometry.rookRay · sq))
+    | _, _ => "err"
+  | _ => "err"
+
 partial def loop (h : IO.FS.Stream) (out : IO.FS.Stream) : IO Unit := do
   let line ← h.getLine
   if line.isEmpty then return ()
-  out.putStrLn "unimplemented"
+  out.putStrLn (answer (line.trimAscii.toString))
   out.flush
   loop h out
 
